@@ -149,7 +149,9 @@ def run(c):
     c.mc_expect_violation('MC_Dispatch', c03.mc_cfg(top=True, idents=(1,), fns='MCFnsOne', tps='MCTpSetsSpans',
                                                     lines=(1,), ev=4, depth=1, invs=['ClosedWhenInvocationEnds']),
                           'deviation TopOnly', what='ClosedWhenInvocationEnds')
-    traces, meta = c03.run_scenarios(c, rng, wd, 60 if quick else 1500, 0.8, 'spans', 's', curated=CURATED)
+    # 70 openings pending at once on one thread (a chain of 80 distinct functions, a method span on the first 70)
+    deep = ([M(i + 1, 'a', 'chain_%d' % i, 'method') for i in range(70)], [[('a.chain_0', [])]])
+    traces, meta = c03.run_scenarios(c, rng, wd, 60 if quick else 1500, 0.8, 'spans', 's', curated=CURATED + [deep])
     c03.validate(c, traces, meta, lambda m: m['closes'] >= 2)
     c.extra['spans_closed'] = sum(m['closes'] for m in meta)
     # capture tracepoints (deferred snapshots): completed once, on their thread, with the opening invocation's result
